@@ -1,7 +1,11 @@
 -- Root of the `Secp` library: everything `setup.sh` builds once.
 import Secp.Driver
+import Secp.Props.C01
+import Secp.Props.C02
+import Secp.Props.C07
 import Secp.Props.C05
 import Secp.Props.C16
+import Secp.Props.C17
 import Secp.Props.C18
 import Secp.Props.C08
 import Secp.Props.C09
